@@ -51,14 +51,17 @@ type snapInfo struct {
 }
 
 type CW struct {
-	f     *failer
-	kv    bool
-	mm    bool
-	arena *guard.Arena
-	db    *nitro.Nitro
-	ws    []*nitro.Writer
-	state map[string]string // key -> stored item bytes of the live item
-	snaps []*snapInfo
+	hot            map[int][]int // per yield point: plan of parkings (sched.Sched.Hot), installed by installHooks
+	coarse         bool          // installHooks: skiplist-level yield points are not scheduling points
+	finalCloseOnly bool          // closeAllAndCollect relies on the final Close instead of an explicit GC()
+	f              *failer
+	kv             bool
+	mm             bool
+	arena          *guard.Arena
+	db             *nitro.Nitro
+	ws             []*nitro.Writer
+	state          map[string]string // key -> stored item bytes of the live item
+	snaps          []*snapInfo
 	// per snapshot number: how often the retirement point was reached
 	retire   map[uint32]int
 	retireMu sync.Mutex
@@ -158,7 +161,14 @@ func (c *CW) nid(n *skiplist.Node) int64 {
 func (c *CW) installHooks(s *sched.Sched) {
 	c.s = s
 	s.UseGid = true
-	skiplist.VerifSetHooks(s.Yield, func(m *sync.Mutex) { s.LockWait(m) })
+	s.Hot = c.hot
+	if c.coarse {
+		// coarse schedules: only nitro's own yield points (Open/Close/DeleteNode/GC) and operation boundaries are
+		// scheduling points, so that a drawn schedule of a few dozen steps reaches a specific pair of them
+		skiplist.VerifSetHooks(nil, func(m *sync.Mutex) { s.LockWait(m) })
+	} else {
+		skiplist.VerifSetHooks(s.Yield, func(m *sync.Mutex) { s.LockWait(m) })
+	}
 	nitro.VerifSetHook(func(point int, arg uint64) {
 		if point == nitro.VerifPtCloseRetire {
 			c.retireMu.Lock()
@@ -425,16 +435,35 @@ func waitLimit() time.Duration {
 func (c *CW) closeAllAndCollect(checkRetire bool) {
 	c.hookSequential()
 	defer nitro.VerifSetHook(nil)
+	retiring := 0
 	for _, si := range c.snaps {
 		for si.refs > 0 {
 			si.snap.Close()
 			si.refs--
+			if si.refs == 0 {
+				retiring++
+			}
 		}
 	}
-	c.db.GC()
+	how := "GC() was called"
+	if c.finalCloseOnly {
+		// "the final Close triggers one": no explicit GC(). The last retiring Close of the history runs here,
+		// sequentially, after every other call has returned; if the round released everything itself, a fresh
+		// snapshot is created and closed so that there is such a Close.
+		how = "the final Close has returned (no explicit GC())"
+		if retiring == 0 {
+			s, err := c.db.NewSnapshot()
+			if err != nil {
+				c.f.failf("setup", "NewSnapshot: %v", err)
+			}
+			s.Close()
+		}
+	} else {
+		c.db.GC()
+	}
 	want := c.db.GetCurrSn() - 1
 	if got := c.db.GetLastGCSn(); got != want {
-		c.f.failf("gc-frontier", "every snapshot is closed and GC() was called, but GetLastGCSn()=%d, last snapshot is %d", got, want)
+		c.f.failf("gc-frontier", "every snapshot is closed and %s, but GetLastGCSn()=%d, last snapshot is %d", how, got, want)
 	}
 	if n := len(c.db.GetSnapshots()); n != 0 {
 		c.f.failf("snapshots-left", "every reference was closed but GetSnapshots() still lists %d snapshots", n)
